@@ -1,3 +1,7 @@
 Require Extraction. Require Import ExtrOcamlBasic.
-From GV Require Import TriggerModel.
-Extraction "trigger_model.ml" TriggerModel.run_case.
+From Coq Require Import List ZArith Bool.
+From GV Require Import Sched Enum TriggerModel.
+Definition enum_case (cfg : list Z) (progs : list (list (list Z))) (depth budget : Z) :=
+  let a := match cfg with a :: _ => negb (Z.eqb a 0) | nil => false end in
+  enum_case_gen glob loc tstep (init a (map decode_prog progs)) depth budget.
+Extraction "trigger_model.ml" TriggerModel.run_case enum_case.
